@@ -1,6 +1,7 @@
 import RpmVerif.Lemmas.Decode
 import RpmVerif.Model.Accessors
 import RpmVerif.Gen.FileEntriesShape
+import RpmVerif.Lemmas.PkgFiles  -- shares the auxiliary `buildEntries` match lemmas (two modules realising them independently cannot be imported together)
 /-!
 # C05 — metadata accessors return exactly what the header stores
 
